@@ -94,6 +94,13 @@ def fold_bin(op, a, b):
         cmp_ = {"Eq": x == y, "Ne": x != y, "Lt": x < y, "Le": x <= y, "Gt": x > y, "Ge": x >= y}.get(op)
         if cmp_ is not None:
             return ("bool", cmp_)
+    # `buf.len() == 0` is `buf.is_empty()` (one canonical spelling of the emptiness test of a tracked buffer)
+    for x_, y_ in ((a, b), (b, a)):
+        if x_[0] == "len" and isinstance(x_[1], tuple) and x_[1][:1] == ("bufval",) and y_ == ("lit", 0):
+            if op == "Eq":
+                return ("empty", x_[1])
+            if op in ("Ne",) or (op == "Gt" and x_ is a) or (op == "Lt" and x_ is b):
+                return ("un", "Not", ("empty", x_[1]))
     return ("bin", op, a, b)
 
 
@@ -853,7 +860,7 @@ class Interp:
         return out
 
     # ------------------------------------------------------------------------------------
-    MUTATORS = ("std::vec::Vec::extend_from_slice", "std::vec::Vec::push")
+    MUTATORS = ("std::vec::Vec::extend_from_slice", "std::vec::Vec::push", "<std::vec::Vec<T, A> as std::iter::Extend<T>>::extend", "<std::vec::Vec<T, A> as std::iter::Extend<&'a T>>::extend")
 
     def is_buf_mutation(self, e, env):
         r = e["recv"]
@@ -895,6 +902,19 @@ class Interp:
             if not name.endswith("::push"):
                 raise Unanalysable("unsupported list mutation " + name)
             env[vid] = ("list", cur[1] + [("item", arg)])
+        elif name.endswith("::extend"):
+            # `buf.extend(a..b)` is `for i in a..b { buf.push(i) }`; `buf.extend(slice.iter())` / `extend(&slice)` is extend_from_slice
+            a0 = arg
+            while a0[0] == "mcall" and a0[1].split("::")[-1] in ("iter", "into_iter", "copied", "cloned") and len(a0) > 2:
+                a0 = a0[2]
+            if a0[0] == "range":
+                self.loopn += 1
+                lid = "L%d" % self.loopn
+                env[vid] = ("buf", cur[1] + [("rep", a0, lid, [("u8", ("elem", a0, lid))])])
+            elif a0[0] in ("buf", "str", "param", "field", "index", "payload"):
+                env[vid] = ("buf", cur[1] + self.bytes_of(a0))
+            else:
+                raise Unanalysable("unsupported `extend` argument %s at line %s" % (show(a0)[:60], e["sp"][0]))
         elif name.endswith("extend_from_slice"):
             env[vid] = ("buf", cur[1] + self.bytes_of(arg))
         else:
@@ -1231,6 +1251,19 @@ class Interp:
             return recv[1]
         if m == "unwrap_or" and recv[0] == "none":
             return args[0]
+        if m in ("then", "then_some") and e["recv"]["ty"].lstrip("&") == "bool" and args:
+            # `c.then(|| v)` / `c.then_some(v)` is `if c { Some(v) } else { None }`
+            v = None
+            if m == "then_some":
+                v = args[0]
+            elif args[0][0] == "closure":
+                clo = args[0]
+                try:
+                    v = self.collapse_value(self.exec_expr_tree(clo[1]["body"], dict(clo[2])))
+                except Unanalysable:
+                    v = None
+            if v is not None:
+                return self.if_value(recv, ("some", v), ("none",))
         if m in ("map", "and_then") and recv[0] in ("some", "none") and args and args[-1][0] == "closure" and e["recv"]["ty"].lstrip("&").startswith("std::option::Option<"):
             # statically known Option: `Some(x).map(f)` is `Some(f(x))`, `None.map(f)` is `None`
             if recv[0] == "none":
